@@ -38,7 +38,11 @@ Record pstate := {
   initial : list nat;                (* initial_operations *)
   cached : list nat;                 (* cached_tasks *)
   sr_calls : list nat;               (* tasks on which should_run was evaluated, in order *)
-  nv_calls : list nat                (* tasks on which create_new_version was called, in order *)
+  nv_calls : list nat;               (* tasks on which create_new_version was called, in order *)
+  snaps : list (nat * list (nat * bool))
+    (* get_deps_output_paths at the second visit of a task: for each direct dependency, in declared
+       order, whether its NEW version already exists at that moment (else the path handed out is
+       the one of its selected existing version / its unversioned directory) *)
 }.
 
 Fixpoint lookup (x : nat) (m : list (nat * nat)) : option nat :=
@@ -96,19 +100,19 @@ Section Planner.
         | Some v =>
           Some {| store := set_nth i {| lt_task := t; lt_second := false; lt_deps := lt_deps lt; lt_out := Alias v |} (store s);
                   stack := stk; visited := visited s; ops := ops s; initial := initial s;
-                  cached := cached s; sr_calls := sr_calls s; nv_calls := nv_calls s |}
+                  cached := cached s; sr_calls := sr_calls s; nv_calls := nv_calls s; snaps := snaps s |}
         | None =>
           let vis := (t, i) :: visited s in
           if negb again && negb (sr t) then
             Some {| store := store s; stack := stk; visited := vis; ops := ops s; initial := initial s;
-                    cached := cached s ++ [t]; sr_calls := sr_calls s ++ [t]; nv_calls := nv_calls s |}
+                    cached := cached s ++ [t]; sr_calls := sr_calls s ++ [t]; nv_calls := nv_calls s; snaps := snaps s |}
           else
             let '(st1, stk1, deps1) := push_deps (rev (t_deps (info t))) vis (store s) (i :: stk) [] in
             Some {| store := set_nth i {| lt_task := t; lt_second := true; lt_deps := deps1; lt_out := lt_out lt |} st1;
                     stack := stk1; visited := vis; ops := ops s; initial := initial s;
                     cached := cached s;
                     sr_calls := if again then sr_calls s else sr_calls s ++ [t];
-                    nv_calls := nv_calls s |}
+                    nv_calls := nv_calls s; snaps := snaps s |}
         end
       else
         let o := length (ops s) in
@@ -122,7 +126,9 @@ Section Planner.
                 stack := stk; visited := visited s; ops := ops s ++ [oi];
                 initial := match edeps with [] => initial s ++ [o] | _ => initial s end;
                 cached := cached s; sr_calls := sr_calls s;
-                nv_calls := match k with KExperiment => nv_calls s ++ [t] | _ => nv_calls s end |}
+                nv_calls := match k with KExperiment => nv_calls s ++ [t] | _ => nv_calls s end;
+                (* create_new_version (above) happens before get_deps_output_paths in the planner *)
+                snaps := snaps s ++ [(t, map (fun d => (d, mem d (match k with KExperiment => nv_calls s ++ [t] | _ => nv_calls s end))) (t_deps (info t)))] |}
     end.
 
   Fixpoint piter (fuel : nat) (s : pstate) : option pstate :=
@@ -133,7 +139,7 @@ Section Planner.
 
   Definition pinit (root : nat) : pstate :=
     {| store := [{| lt_task := root; lt_second := false; lt_deps := []; lt_out := Own [] |}];
-       stack := [0]; visited := []; ops := []; initial := []; cached := []; sr_calls := []; nv_calls := [] |}.
+       stack := [0]; visited := []; ops := []; initial := []; cached := []; sr_calls := []; nv_calls := []; snaps := [] |}.
 
   Definition plan_for (fuel : nat) (root : nat) : option pstate := piter fuel (pinit root).
 End Planner.
